@@ -17,17 +17,18 @@ from harness.lib import protocol as P, sched as S
 from harness.props import c01
 
 LEVEL = "proof"
-THEOREMS = ["C08_ack_implies_validated", "C08_no_lost_update", "C08_fence", "C08_stolen_never_success"]
+THEOREMS = ["C08_ack_implies_validated", "C08_no_lost_update", "C08_fence", "C08_stolen_never_success",
+            "C08_cas_path_regenerated"]
 MANIFEST_ENTRY = {
     "level_text": "For CAS storage and ANY lock behaviour (exclusive, lease with arbitrary takeovers, or no exclusion at all) Coq "
                   "proves that every acknowledged flip replaced exactly the version its committer validated, so the committed "
                   "versions form one chain (no lost update), and that a committer whose lease was taken before the fence ends in "
                   "a retryable conflict; real S3StorageBackend / MetadataManager code is trace-validated against the model over an "
                   "in-memory conditional-write S3 under a deterministic scheduler with a grant-everyone lock",
-    "level_note": "trusted: Coq kernel; harness projection (validation read must be the ETag read); in-memory S3 is strongly "
+    "level_note": "trusted: Coq kernel; translator/gen_commit.py (single ETag-bearing pointer read before validation, failure classes of the conditional write: C08_cas_path_regenerated); harness projection (validation read must be the ETag read); in-memory S3 is strongly "
                   "consistent with atomic conditional PUT (the property's premise); in-flight PUT delay = interleaving before the "
                   "atomic landing; the real S3 lease lock is exercised by C19",
-    "technique": "Coq invariant proof (CAS, arbitrary lock) + trace validation over a fake conditional-write S3",
+    "technique": "Coq invariant proof (CAS, arbitrary lock) over translator-regenerated kernels + trace validation over a fake conditional-write S3",
     "design_ref": "DESIGN.md section 5 C08",
 }
 
@@ -39,7 +40,7 @@ def run(ctx) -> None:
                 "stale holder resuming); bounded-preemption enumeration + directed + random; distinct = executed schedule")
     ctx.trusted_base += ["harness/lib/sched.py, protocol.py, mems3.py (strongly consistent in-memory S3 with If-Match / If-None-Match)"]
     ctx.assumptions += ["conditional PUT is atomic and the store is strongly consistent (property premise)"]
-    ctx.proofs(THEOREMS)
+    ctx.proofs(THEOREMS, gen_files=["GenCommit.v"])
     ctx.allow_axioms([])
     quick = ctx.tier == "quick"
     runs: List[Tuple[Dict[str, Any], Any, P.CaseResult]] = []
